@@ -12,6 +12,7 @@ import shutil
 import subprocess
 import sys
 import tempfile
+import types
 from concurrent.futures import ThreadPoolExecutor
 
 from .index import REPO
@@ -84,6 +85,12 @@ def collect(props):
       continue
     for v in getattr(mod, "VARIANTS", []):
       out.append((p,) + tuple(v))
+    # property-specific helper modules imported by the rule module (sa/rules/_cNN_*.py)
+    for sub in list(vars(mod).values()):
+      if isinstance(sub, types.ModuleType) and \
+          sub.__name__.startswith("sa.rules._%s_" % p.lower()):
+        for v in getattr(sub, "VARIANTS", []):
+          out.append((p,) + tuple(v))
   return out
 
 
